@@ -1793,7 +1793,23 @@ fn eval_c13(case: &Case) -> Eval {
         .filter(|f| !matches!(f.kind, FaultKind::Value(..)))
         .cloned()
         .collect();
-    let base_case = strip_faults(case);
+    // replay of a double-fault violation: the case carries both driver errors and a caller
+    // that keeps iterating; it is judged as it stands
+    if explicit.len() == 2
+        && explicit.iter().all(|f| f.kind == FaultKind::Error)
+        && case.continue_after_error
+    {
+        ev.violation = c13_double(case, &mut ev);
+        ev.nontrivial = true;
+        return ev;
+    }
+    let base_case = {
+        // (the fault-free run and the single-fault runs are made with a caller that stops at
+        // the first error item, whatever the replayed case says)
+        let mut c = strip_faults(case);
+        c.continue_after_error = false;
+        c
+    };
     let base_out = run_case(&base_case);
     ev.runs = 1;
     ev.ticks = base_out.ticks;
